@@ -19,7 +19,7 @@ use serde_json::{json, Value};
 pub struct C12;
 
 /// (name, setup forms, garbage expression using loop variable i, driven-from-harness?)
-const LOOP_KINDS: [(&str, &str); 15] = [
+const LOOP_KINDS: [(&str, &str); 16] = [
     ("pairs", "(cons i i)"),
     ("lists", "(list i (list i i) i)"),
     ("vectors", "(make-vector 8 i)"),
@@ -28,6 +28,9 @@ const LOOP_KINDS: [(&str, &str); 15] = [
     ("closures", "((lambda (x) (lambda (y) (+ x y i))) i)"),
     ("closure-environments", "(let ((a i) (b (list i))) ((lambda () (set! a (+ a 1)) (lambda () (cons a b)))))"),
     ("continuations", "(call/cc (lambda (k) k))"),
+    // checkpointing: each iteration captures a continuation two frames deep and hands it to a
+    // helper that remembers only the most recent one
+    ("checkpoint-continuations", "(c12-checkpoint)"),
     ("eval-code", "(eval (list '+ i 1))"),
     ("eval-lambdas", "((eval (list 'lambda '(x) (list '+ 'x i))) 1)"),
     ("interned-symbols", "(string->symbol (string-append \"c12-sym-\" (number->string i)))"),
@@ -77,7 +80,7 @@ fn run_template(ctx: &Ctx, kind: &str, live: usize, n: usize, sliced: bool) -> O
     let obs = install_observer(&mut s, 1);
     // live set: a list of `live` fresh pairs, checksum known
     let setup = format!(
-        "(define (c12-make n) (let loop ((i 0) (acc '())) (if (< i n) (loop (+ i 1) (cons (cons i (* i 2)) acc)) acc))) (define c12-live (c12-make {})) (define (c12-sum l acc) (if (null? l) acc (c12-sum (cdr l) (+ acc (car (car l)) (cdr (car l))))))",
+        "(define (c12-make n) (let loop ((i 0) (acc '())) (if (< i n) (loop (+ i 1) (cons (cons i (* i 2)) acc)) acc))) (define c12-live (c12-make {})) (define (c12-sum l acc) (if (null? l) acc (c12-sum (cdr l) (+ acc (car (car l)) (cdr (car l)))))) (define (c12-deep n) (if (= n 0) 0 (+ 1 (c12-deep (- n 1))))) (define c12-current #f) (define (c12-remember! k) (set! c12-current (cons 'checkpoint k))) (define (c12-checkpoint) (c12-remember! (call/cc (lambda (k) k)))) (c12-deep 600)",
         live
     );
     for f in read_all(&setup).unwrap() {
@@ -167,7 +170,7 @@ impl Prop for C12 {
         "C12"
     }
     fn rule(&self) -> &'static str {
-        "garbage-producing loop templates, one per allocation kind (pairs, lists, vectors, strings, closures and their environments, continuations, code compiled by eval, lambdas compiled by eval, interned symbols, bignums, floats/rationals, promises, mixed) and five harness-driven kinds (successive top-level evaluations, redefinition of one global, fresh quoted symbols, a lambda per evaluation, fresh unbound global names) x live-set size {0, 10, 1000} x n and 10n (quick n=5000, thorough n=10^5). Heap capacity, stack capacity and process live bytes after 10n must be <= 1.5x the values after n + slack (8192 cells / 256 slots / 1 MiB); the live set's checksum must be intact; after every collection no cell unreachable by the harness' traversal may remain allocated. Non-trivial: at least 3 collections happened; distinct by (kind, live, n)."
+        "garbage-producing loop templates, one per allocation kind (pairs, lists, vectors, strings, closures and their environments, continuations, checkpoint continuations handed to a recording helper after an earlier 600-deep recursion, code compiled by eval, lambdas compiled by eval, interned symbols, bignums, floats/rationals, promises, mixed) and five harness-driven kinds (successive top-level evaluations, redefinition of one global, fresh quoted symbols, a lambda per evaluation, fresh unbound global names) x live-set size {0, 10, 1000} x n and 10n (quick n=5000, thorough n=10^5). Heap capacity, stack capacity and process live bytes after 10n must be <= 1.5x the values after n + slack (8192 cells / 256 slots / 1 MiB); the live set's checksum must be intact; after every collection no cell unreachable by the harness' traversal may remain allocated. Non-trivial: at least 3 collections happened; distinct by (kind, live, n)."
     }
     fn assumptions(&self) -> Vec<&'static str> {
         vec![
@@ -196,7 +199,7 @@ impl Prop for C12 {
             }
         }
         // the same loops driven in slices (prepare_eval + run_count(1000))
-        for kind in ["pairs", "closure-environments", "continuations", "eval-code", "interned-symbols", "mixed"] {
+        for kind in ["pairs", "closure-environments", "continuations", "checkpoint-continuations", "eval-code", "interned-symbols", "mixed"] {
             idx += 1;
             if idx % ctx.nshards != ctx.shard {
                 continue;
